@@ -36,6 +36,14 @@ PF == <<"parent", "height", "seed", "proof", "fee", "txhash", "bloom", "flags", 
 EF == <<"parent", "height", "root", "idroot", "seed", "time", "flags">>
 Fields(k) == IF k = "empty" THEN ToSet(EF) ELSE ToSet(PF)
 Ops == {"flip", "inc", "dec", "zero", "foreign"}
+(* REPLAY: a derived field (or a group of fields that belong together) carries the value it had in an EARLIER honest  *)
+(* block of the SAME proposer - a block the validator itself has validated and inserted moments ago (a "warm"       *)
+(* validator: the property's "what the validator recomputes from its own state" has to hold whatever the node has   *)
+(* in its memory from earlier validations).  Every field of a group comes from the same donor block, so the group   *)
+(* is coherent in itself (a valid seed proof of that key for another height, roots that belong together, ...).       *)
+ReplayGroups == [seed |-> {"seed"}, proof |-> {"proof"}, seedpair |-> {"seed", "proof"},
+                 roots |-> {"root", "idroot"}, bodyhdr |-> {"txhash", "bloom", "ipfs", "rcid"},
+                 flags |-> {"flags"}, fee |-> {"fee"}, derived |-> {"seed", "proof", "root", "idroot", "txhash", "bloom", "ipfs", "rcid", "flags", "fee"}]
 
 (* inputs a derived field is computed from (besides the validator's own state) *)
 Dep(k, f) == IF k = "empty" THEN {}
@@ -100,6 +108,7 @@ BodyCases(k)  == IF k = "empty" THEN {}
 TimeCases(k)  == IF k = "empty" THEN {} ELSE {[t |-> "time", c |-> c] : c \in TimeOut}
 KeyCs(k)      == IF k = "empty" THEN {} ELSE {[t |-> "key", c |-> c] : c \in KeyCases}
 FreeCs(k)     == IF k = "empty" THEN {} ELSE {[t |-> "free", c |-> c] : c \in FreeCases}
+ReplayCases(k) == IF k = "empty" THEN {} ELSE {[t |-> "replay", g |-> g] : g \in DOMAIN ReplayGroups}
 StructCases(k) == {[t |-> "struct", s |-> s] : s \in StructNames \ (IF k = "empty" THEN {"to_empty", "attach_e"} ELSE {"to_proposed"})}
 MixCases(k)   == IF k \in MixKinds
                  THEN {[t |-> "mix", body |-> b, src |-> s] : b \in {"orig", "sib"}, s \in [BodyDep -> {"orig", "sib"}]}
@@ -114,7 +123,7 @@ PairCases(k)  == IF k \in PairKinds
                              a \in FieldCases(k)}
                  ELSE {}
 Singles(k) == {[t |-> "none"]} \cup FieldCases(k) \cup BodyCases(k) \cup TimeCases(k) \cup KeyCs(k) \cup FreeCs(k) \cup MixCases(k)
-              \cup StructCases(k)
+              \cup StructCases(k) \cup ReplayCases(k)
 Cases(k)   == Singles(k) \cup PairCases(k)
 
 (* Apply(b, c, D): the block after tamper case c.  D is the set of header fields in which the     *)
@@ -141,6 +150,8 @@ Apply(b, c, D) ==
                                                THEN Rec(b.kind, f, [b.in EXCEPT !.body = IF f \in D THEN c.src[f] ELSE c.body])
                                                ELSE b.hdr[f]]]
       [] c.t = "struct" -> [b EXCEPT !.struct = StructOf(c.s)]
+      [] c.t = "replay" -> [b EXCEPT !.hdr = [f \in Fields(b.kind) |->
+                                                IF f \in ReplayGroups[c.g] \cap D THEN Alt("replay") ELSE b.hdr[f]]]
       [] c.t = "free"  -> IF c.c = "time_inwin" THEN [b EXCEPT !.in.time = "inwin", !.free = TRUE]
                           ELSE IF c.c = "fee_absent" THEN [b EXCEPT !.hdr["fee"] = Absent, !.free = TRUE]
                           ELSE [b EXCEPT !.free = TRUE]
